@@ -42,8 +42,14 @@ def has_loop(wid: str) -> bool:
     return puml_sem.count_kind(gen_defs.load_workload(wid), ("loop",)) > 0
 
 
+SUB_PROPS = ("C01", "C03", "C05", "C07")   # properties that also quantify
+#                                            over partial samples
+
+
 def candidate_wids(seed: int, prop: str):
-    """Seeded order over the universe U (corpus + non-excluded gen(i))."""
+    """Seeded order over the universe U: corpus + non-excluded gen(i), and
+    for the properties that quantify over arbitrary job sets the fixed
+    sub-sample `#s1` of each of them (every second generated one)."""
     r = random.Random(core.derive(seed, prop, "workloads"))
     corpus = ["corpus:" + f for f in gen_defs.corpus_files()]
     gens = list(range(grid.N_GEN))
@@ -52,13 +58,17 @@ def candidate_wids(seed: int, prop: str):
     for w in corpus:
         if prop != "C07" or has_loop(w):
             yield w
-    for i in gens:
+            if prop in SUB_PROPS:
+                yield w + "#s1"
+    for n, i in enumerate(gens):
         d = gen_defs.gen_def(i)
         if gen_defs.excluded_by(d):
             continue
         if prop == "C07" and puml_sem.count_kind(d, ("loop",)) == 0:
             continue
         yield f"gen:{i}"
+        if prop in SUB_PROPS and n % 2 == 0:
+            yield f"gen:{i}#s1"
 
 
 def allowed_sids(prop: str) -> list[int]:
